@@ -4,7 +4,7 @@
    evaluates on the observations of the real algorithms. *)
 From Coq Require Import ZArith QArith Qminmax List Bool.
 From FV Require Import Common.ListX Common.CMonoid Common.NanQ Common.QVec Model.C17_Model Proofs.C17_Proofs.
-From FV Require gen.Gen_c17_agnostic gen.Gen_c17_hyp_cluster gen.Gen_c17_apfl gen.Gen_c17_mime_lite gen.Gen_c17_optimizers gen.Gen_tree_util.
+From FV Require gen.Gen_c17_agnostic gen.Gen_c17_hyp_cluster gen.Gen_c17_apfl gen.Gen_c17_mime_lite gen.Gen_c17_optimizers gen.Gen_tree_util gen.Gen_util.
 Import ListNotations.
 Local Open Scope Q_scope.
 
@@ -113,6 +113,7 @@ Proof. exact model_uses_translated_code. Qed.
 (* structure of the code around those kernels *)
 Theorem C17_code_structure :
   Gen_c17_agnostic.server_update_passes_weights_through = true /\
+  Gen_c17_agnostic.empty_cohort_gives_zeros = true /\
   Gen_c17_hyp_cluster.accumulate_into_assigned_cluster = true /\
   Gen_c17_hyp_cluster.assignment_is_argmin = true /\
   Gen_c17_mime_lite.clip_before_aggregate = true /\ Gen_c17_mime_lite.clip_uses_global_norm = true /\
@@ -121,6 +122,36 @@ Theorem C17_code_structure :
   Gen_c17_apfl.apfl_clip_lo == 0 /\ Gen_c17_apfl.apfl_clip_hi == 1 /\
   Gen_c17_optimizers.ignore_masks_named_to_none = true /\ Gen_c17_optimizers.ignore_restores_named_from_input = true.
 Proof. exact code_structure. Qed.
+
+(* AgnosticFedAvg's client scaling as translated (alpha = safe_div(w, window mean), beta = sum(alpha * counts),
+   loss = safe_div(sum(alpha * domain losses), beta)) stays finite for ALL finite inputs, a zero window mean
+   (starved domain) and a zero beta included *)
+Theorem C17_agnostic_scaling_finite : forall w m num sl,
+  exists al be, Gen_c17_agnostic.alpha_gen (map Some w) (map Some m) = map Some al /\
+                Gen_c17_agnostic.beta_gen (map Some al) (map Some num) = Some be /\
+                exists lo, Gen_c17_agnostic.scaled_loss_gen (map Some al) (map Some sl) (Some be) = Some lo.
+Proof. exact agnostic_scaling_finite. Qed.
+
+(* the model's per-cluster running sums ARE the translated loop body of expectation_step *)
+Theorem C17_cluster_step_is_the_code : forall acc a n d,
+  (map fst (cluster_step acc (a, n, d)), map snd (cluster_step acc (a, n, d))) =
+  Gen_c17_hyp_cluster.expectation_accumulate vadd (fun dl w => vscale w dl) (map fst acc) (map snd acc) a d n.
+Proof. exact cluster_step_is_code. Qed.
+
+(* ... and vadd / vscale are the translated tree_add / tree_weight / tree_inverse_weight on finite values *)
+Theorem C17_tree_ops_are_vector_ops :
+  (forall a b, Gen_tree_util.tree_add (map Some a) (map Some b) = map Some (vadd a b)) /\
+  (forall d n, Forall2 NanQ.eq (Gen_tree_util.tree_weight (map Some d) (Some n)) (map Some (vscale n d))) /\
+  (forall s n, 0 < n -> Forall2 NanQ.eq (Gen_tree_util.tree_inverse_weight (map Some s) (Some n)) (map Some (vscale (/ n) s))).
+Proof. exact tree_ops_are_vector_ops. Qed.
+
+(* the hypotheses of the theorems above hold on non-trivial instances (hyp_ok is what C17_agree asserts on every case) *)
+Example C17_hypotheses_example :
+  forallb hyp_ok [IEg [1 # 4; 0; 3 # 4] [2; 1; 1 # 2]; IWin [[3; 0]%Z; [0; 2]%Z] [1; 1]%Z; IApfl 1 2 [1; -1];
+                  IClip (1 # 4) 1 [0; 0] [(4, [3; 4], 5); (0, [0; 0], 0)]; IClipD 0 [0; 0] 0;
+                  ICluster 2 1 (1 # 2) [[0]; [1]] [[0]; [0]] [(1%nat, 4, [1])]; IArgmin [2; 2]] = true /\
+  NoDup (map fst [(0%nat, 5); (1%nat, 6); (2%nat, 7)]).
+Proof. split; [vm_compute; reflexivity | repeat constructor; cbn; intuition discriminate]. Qed.
 
 (* non-vacuity: concrete instances of every hypothesis *)
 Example C17_example :
@@ -151,3 +182,6 @@ Print Assumptions C17_eg_is_the_code.
 Print Assumptions C17_clip_is_the_code.
 Print Assumptions C17_model_uses_translated_code.
 Print Assumptions C17_code_structure.
+Print Assumptions C17_agnostic_scaling_finite.
+Print Assumptions C17_cluster_step_is_the_code.
+Print Assumptions C17_tree_ops_are_vector_ops.
